@@ -135,10 +135,12 @@ def check(run):
     g = A.graphs.get(fn)
     c14.check_dhtv_copy(run, A)
     means = [e.term for e in g.events if e.kind == 'call' and is_call_to(e.term, 'numpy.mean')]
-    okc = bool(means) and const_val(call_arg(means[0], None, 'axis')) == 1
+    # (the operand is features[:, start:end, :], indexed with three items: axis 1 and axis -2 are the same axis)
+    okc = bool(means) and const_val(call_arg(means[0], None, 'axis')) in (1, -2)
     if okc:
         src = strip_views(call_arg(means[0], 0))
-        okc = src.op == 'sub' and src.args[1].op == 'tuple' and len(src.args[1].args[0]) == 3 and strip_views(src.args[1].args[0][1]).op == 'slice'
+        okc = src.op == 'sub' and src.args[1].op == 'tuple' and len(src.args[1].args[0]) == 3 and strip_views(src.args[1].args[0][1]).op == 'slice' \
+            and not any(x.op == 'const' and x.args[0] in (None, Ellipsis) for x in src.args[1].args[0])
         if okc:
             base = strip_views(src.args[0])
             okc = base.op == 'mu' or base.op == 'store' or any(x.op == 'mu' for x in unwrap_gamma(base))
